@@ -100,6 +100,9 @@ class BaseTorchFlow(Flow):
                 strict=False,
             )
             config["data_transform"] = data_transform
+        # Extra flow options are stored under their own key
+        kwargs = config.pop("kwargs", {})
+        config.update(kwargs)
         obj = self(**config)
         # Load weights
         weights = {
